@@ -72,7 +72,8 @@ mut("benign-new-select-arm", "\t\tcase <-tickerC:", "\t\tcase <-s.quit:\n\t\t\t_
     edits=[dict(file=F, old="\tcontinueOnError bool\n}", new="\tcontinueOnError bool\n\n\tquit chan struct{}\n}")])
 mut("benign-early-continue-form", "\t\t\tif job.remaining == 0 {\n\t\t\t\tready.PushBack(job)\n\t\t\t} else {\n\t\t\t\twaiting++\n\t\t\t}",
     "\t\t\tif job.remaining != 0 {\n\t\t\t\twaiting++\n\t\t\t\tbreak\n\t\t\t}\n\t\t\tready.PushBack(job)", [], benign=True)
-mut("benign-fix-f1", "\t\tif ready.Len() > 0 {", "\t\tif ready.Len() > 0 && ongoing < s.concurrency {", [], benign=True)
+mut("s27-revert-dispatch-gate", "\t\tif ready.Len() > 0 && ongoing < s.concurrency {", "\t\tif ready.Len() > 0 {", ["S27"], why="finding F1")
+mut("benign-gate-other-form", "\t\tif ready.Len() > 0 && ongoing < s.concurrency {", "\t\tif s.concurrency > ongoing && ready.Len() > 0 {", [], benign=True)
 mut("benign-inline-idle", "IdleWorkers: idleWorkers(s.concurrency, ongoing),", "IdleWorkers: s.concurrency - ongoing,", [], benign=True,
     edits=[dict(file=F, old="func idleWorkers(concurrency, ongoing int) int {", new="func idleWorkersUnused(concurrency, ongoing int) int {")])
 mut("benign-log-line", "\t\t\tpending++\n", "\t\t\tpending++\n\t\t\t_ = time.Now()\n", [], benign=True)
